@@ -198,6 +198,18 @@ def check_serde_filter(S, P, r5):
     """which items count as serde types; shared by C07-D5 and C02-D4"""
     fn = S.fn("StructParser", "should_include")
     if fn is None:
+        # the per-attribute test merged into (a helper of) the per-item filter: read it there (the walk looks through new private helpers)
+        fn = S.fn("StructParser", "should_include_struct")
+        import srclib as _sl
+        for e_ in (walk_block(fn.body) if fn is not None else []):
+            pass
+        if fn is not None:
+            called_ = {(e_["method"] if e_.get("k") == "mcall" else e_["func"]["segs"][-1]) for e_ in walk_block(fn.body)
+                       if e_.get("k") == "mcall" or (e_.get("k") == "call" and e_["func"].get("k") == "path")}
+            helpers_ = [_sl._NEW_HELPERS[n_] for n_ in called_ if n_ in _sl._NEW_HELPERS and _sl._NEW_HELPERS[n_].body is not None]
+            if len(helpers_) == 1:
+                fn = helpers_[0]
+    if fn is None:
         r5.bad(V(r5.id, "<anchor>", "missing:should_include", "anchor not found"))
     else:
         lits = []
